@@ -25,6 +25,7 @@ impl Prop for C17 {
             // (model correspondence only, the judge reports not-applicable)
             allow_reuse: rng.chance(1, 5),
             allow_fold: false,
+            files: Vec::new(),
         };
         gen_history(rng, &shape).to_ops()
     }
